@@ -3,6 +3,8 @@
 package extendeddaemonsetreplicaset
 
 import (
+	"k8s.io/apimachinery/pkg/util/intstr"
+
 	"strconv"
 
 	corev1 "k8s.io/api/core/v1"
@@ -311,4 +313,48 @@ func ZZ_C01_repairWhilePausedOrFrozen() {
 	nondet.Assert("C01.repair.nothing-created", c.Count("create", "Pod") == 0)
 	nondet.Observe("deletes", c.Count("delete", "Pod"))
 	nondet.Reach("C01.repair.while-frozen", ann == "rollout-frozen" && deleted["newer"])
+}
+
+// ZZ_C01_everyPhaseOccupiesItsNode: "carries no pod of the same ExtendedDaemonSet other than pods in
+// Failed or Unknown phase" over the complete phase alphabet, Succeeded included (a daemon pod that
+// completed after a graceful node shutdown): node0 holds one pod in an arbitrary phase, node1 none;
+// with or without a running back-off entry for node0.  A pod is created for node0 only when its
+// pod is Failed or Unknown, never two, and an Unknown pod is never deleted.
+func ZZ_C01_everyPhaseOccupiesItsNode() {
+	c, ds, rsNew, _ := zzStore(2)
+	ds.Status.ActiveReplicaSet = rsNew.Name
+	phase := corev1.PodRunning
+	switch nondet.String("node0.pod.phase", "Running", "Pending", "Succeeded", "Failed", "Unknown") {
+	case "Pending":
+		phase = corev1.PodPending
+	case "Succeeded":
+		phase = corev1.PodSucceeded
+	case "Failed":
+		phase = corev1.PodFailed
+	case "Unknown":
+		phase = corev1.PodUnknown
+	}
+	c.Pods = append(c.Pods, zzPod("pod-node0", zzNodeName(0), zzRSName, zzHashNew, 0, phase, phase == corev1.PodRunning, nondet.Base().Add(-3600*1e9)))
+	five := intstr.FromInt(5)
+	ds.Spec.Strategy.RollingUpdate.SlowStartAdditiveIncrease = &five
+	r := zzReconciler(c, nondet.Bool("nodeAffinitySupported"))
+	if nondet.Bool("backoffRunningForNode0") {
+		r.failedPodsBackOff.Next(getBackOffKey(rsNew, zzNodeName(0)), r.failedPodsBackOff.Clock.Now())
+	}
+	_, err := zzReconcile(r, zzNS, rsNew.Name)
+	nondet.Assert("C01.phase.noerror", err == nil)
+	created0 := 0
+	for _, e := range c.Log {
+		if e.Kind == "Pod" && e.Verb == "create" && e.Node == zzNodeName(0) {
+			created0++
+		}
+		if e.Kind == "Pod" && e.Verb == "delete" && e.Name == "pod-node0" {
+			nondet.Assert("C01.phase.unknown-untouched", phase != corev1.PodUnknown)
+		}
+	}
+	nondet.Assert("C01.phase.create-only-beside-failed-or-unknown", created0 == 0 || phase == corev1.PodFailed || phase == corev1.PodUnknown)
+	nondet.Assert("C01.phase.at-most-one", created0 <= 1)
+	nondet.Observe("created0", created0)
+	nondet.Reach("C01.phase.succeeded-pod-keeps-its-node", phase == corev1.PodSucceeded && created0 == 0)
+	nondet.Reach("C01.phase.failed-pod-replaced", phase == corev1.PodFailed && created0 == 1)
 }
